@@ -7,7 +7,7 @@ probe, evaluated at quiescence (DESIGN.md section 4, C04).
 import itertools
 import random
 
-from vlib.batch import Batch, unjson
+from vlib.batch import Batch, BudgetExceeded, cpu_budget, unjson
 
 PROPERTY = 'C04'
 LEVEL = 'exploration'
@@ -236,7 +236,11 @@ def plan(tier, seed):
 
 def evaluate_case(b, case):
     try:
-        problems, info, w = run_case(case)
+        with cpu_budget(30):
+            problems, info, w = run_case(case)
+    except BudgetExceeded as e:
+        b.fail(case, 'NO_PROGRESS', {'error': str(e), 'note': 'the dispatcher/loop did not terminate on a finite program'}, dedup='')
+        return
     except Exception as e:
         import traceback
         b.fail(case, 'HARNESS_RAISED', {'error': repr(e), 'tb': traceback.format_exc(limit=8)}, dedup=type(e).__name__)
